@@ -11,6 +11,7 @@ import mir
 
 MAXD = 7
 COPY_HOPS_FREE = True
+CLOSURE_NEUTRAL = True
 
 
 class Sym:
@@ -43,7 +44,12 @@ class Sym:
         for e in proj:
             k = e["k"]
             if k == "Field":
-                s = "%s.%s" % (s, e["name"])
+                if CLOSURE_NEUTRAL and str(e.get("of", "")).startswith("{closure@"):
+                    # captured variable of a closure: by its type, not by its position in the capture list (which changes with the captures)
+                    import re as _re
+                    s = "%s.up:%s" % (s, _re.sub(r"[A-Za-z_0-9]+::", "", str(e.get("ty", "?"))))
+                else:
+                    s = "%s.%s" % (s, e["name"])
             elif k == "Downcast":
                 s = "%s@%s" % (s, e["variant"])
             elif k == "Index":
@@ -138,6 +144,8 @@ class Sym:
             return "discr(%s)" % self.place(rv["place"], depth, stack)
         if k == "Aggregate":
             h = rv.get("agg")
+            if h == "Closure" and CLOSURE_NEUTRAL:
+                return "closure"          # what a closure captures is not part of an operand's identity
             if h == "Adt":
                 h = rv["adt"].rsplit("::", 1)[-1]
                 if rv["variant"] != h:
